@@ -38,3 +38,7 @@ package document
 //@ spec rowPartsLive(r *TableRow) bool = live(r.Properties) && arr(r.Cells) < allocBound() && (forall c int :: {r.Cells[c]} 0 <= c && c < len(r.Cells) ==> cellPartsLive(&r.Cells[c]))
 //@ spec rowRunsApart(r *TableRow) bool = forall c int :: {r.Cells[c]} 0 <= c && c < len(r.Cells) ==> cellRunsApart(&r.Cells[c])
 //@ spec rowCellsApart(r *TableRow) bool = forall c1 int, c2 int :: {r.Cells[c1], r.Cells[c2]} 0 <= c1 && c1 < c2 && c2 < len(r.Cells) ==> cellsApart(&r.Cells[c1], &r.Cells[c2])
+
+// rowsApart(a, b): two rows share neither their properties object nor their cell array, and no cell of one shares
+// anything with a cell of the other.
+//@ spec rowsApart(a *TableRow, b *TableRow) bool = (a.Properties == nil || a.Properties != b.Properties) && arr(a.Cells) != arr(b.Cells) && (forall c1 int, c2 int :: {a.Cells[c1], b.Cells[c2]} 0 <= c1 && c1 < len(a.Cells) && 0 <= c2 && c2 < len(b.Cells) ==> cellsApart(&a.Cells[c1], &b.Cells[c2]))
